@@ -257,8 +257,13 @@ nni_id_remove(nni_id_map *m, uint64_t id)
 
 	m->id_count--;
 
-	// Shrink -- but it's ok if we can't.
-	(void) id_resize(m);
+	// The cursor of nni_id_visit is an index into the table, and entries
+	// may be removed while iterating: the table must stay where it is as
+	// long as there is anything left to visit.  Shrink it once the map is
+	// empty (it's ok if we can't); otherwise the next nni_id_set does.
+	if (m->id_count == 0) {
+		(void) id_resize(m);
+	}
 
 	return (0);
 }
